@@ -301,8 +301,17 @@ func TestLifecycle(t *testing.T) {
 					rtcpSrc.Push(raw)
 					guard("RTCP Read", func() { _, _, _ = rtcpIn.Read(make([]byte, 1500), interceptor.Attributes{}) })
 				}
-				guard("UnbindLocalStream", func() { ic.UnbindLocalStream(l.info) })
+				uinfo := l.info
+				if rapid.IntRange(0, 3).Draw(t, "unbindBySSRCOnly") == 0 {
+					uinfo = &interceptor.StreamInfo{SSRC: l.info.SSRC} // the caller kept only the SSRC: it is what identifies the stream
+				}
+				// for the observation after the Unbind the transport is fast and idle: whatever was decided before the Unbind then begins
+				// within moments of it (see lingering) instead of queueing behind a slow write
+				rtcpSink.SetFast(true)
+				kit.Eventually(20*time.Millisecond, func() bool { return rtcpSink.InFlight() == 0 })
+				guard("UnbindLocalStream", func() { ic.UnbindLocalStream(uinfo) })
 				unboundAt := time.Now()
+				defer rtcpSink.SetFast(false)
 				l.bound = false
 				from := rtcpSink.Len()
 				time.Sleep(5 * interval)
@@ -321,8 +330,22 @@ func TestLifecycle(t *testing.T) {
 				}
 				trace.U(7, uint64(r.info.SSRC))
 				logOp("UnbindRemoteStream %#x", r.info.SSRC)
-				guard("UnbindRemoteStream", func() { ic.UnbindRemoteStream(r.info) })
+				if writerBound && r.got > 0 && rapid.Bool().Draw(t, "lossJustBefore") {
+					// a packet is missing when the stream goes away: whoever was going to ask for it must forget about it
+					r.seq++
+					recvRTP(r)
+				}
+				uinfo := r.info
+				if rapid.IntRange(0, 3).Draw(t, "unbindBySSRCOnly") == 0 {
+					uinfo = &interceptor.StreamInfo{SSRC: r.info.SSRC}
+				}
+				// for the observation after the Unbind the transport is fast and idle: whatever was decided before the Unbind then begins
+				// within moments of it (see lingering) instead of queueing behind a slow write
+				rtcpSink.SetFast(true)
+				kit.Eventually(20*time.Millisecond, func() bool { return rtcpSink.InFlight() == 0 })
+				guard("UnbindRemoteStream", func() { ic.UnbindRemoteStream(uinfo) })
 				unboundAt := time.Now()
+				defer rtcpSink.SetFast(false)
 				r.bound = false
 				from := rtcpSink.Len()
 				if rtcpIn != nil && rapid.Bool().Draw(t, "lateSR") {
